@@ -46,7 +46,7 @@ class Violation:
 class Result:
     """Outcome of checking one case."""
 
-    __slots__ = ("violations", "nontrivial", "labels", "abstained", "skipped")
+    __slots__ = ("violations", "nontrivial", "labels", "abstained", "skipped", "counters")
 
     def __init__(self):
         self.violations: List[Violation] = []
@@ -54,6 +54,10 @@ class Result:
         self.labels: List[str] = []
         self.abstained = 0
         self.skipped: Optional[str] = None  # reason the case was out of the property's domain
+        self.counters: Dict[str, int] = {}  # summed over all cases into the evidence (e.g. enumerated crash points)
+
+    def count(self, name: str, n: int = 1):
+        self.counters[name] = self.counters.get(name, 0) + n
 
     def fail(self, sig: str, msg: str, **extra):
         self.violations.append(Violation(sig, msg, extra))
@@ -136,6 +140,7 @@ def _worker(prop_name: str, tier: str, wseed: int, n_examples: int, excluded: Li
             "samples": [],
             "errors": [],
             "slowest": (0.0, None),
+            "counters": {},
         }
         found: List[dict] = []
         excluded_set = set(excluded)
@@ -172,6 +177,8 @@ def _worker(prop_name: str, tier: str, wseed: int, n_examples: int, excluded: Li
                 stats["abstained"] += res.abstained
                 for lb in res.labels:
                     stats["labels"][lb] = stats["labels"].get(lb, 0) + 1
+                for cn, cv in res.counters.items():
+                    stats["counters"][cn] = stats["counters"].get(cn, 0) + cv
                 if res.nontrivial and state["target"] is None:
                     stats["nontrivial_digests"].add(digest(case))
                     if len(stats["samples"]) < 2 and widx == 0:
@@ -419,6 +426,7 @@ def run_property(prop_id: str, tier: str, workers: Optional[int], examples: Opti
     known_hits: Dict[str, int] = {}
     errors: List[str] = []
     seeds = []
+    counters: Dict[str, int] = {}
     slowest = (0.0, None)
     for r in results:
         if "stats" not in r:
@@ -430,6 +438,8 @@ def run_property(prop_id: str, tier: str, workers: Optional[int], examples: Opti
             labels[k] = labels.get(k, 0) + v
         for k, v in s["skipped"].items():
             skipped[k] = skipped.get(k, 0) + v
+        for k, v in s.get("counters", {}).items():
+            counters[k] = counters.get(k, 0) + v
         for k, v in s["known_hits"].items():
             known_hits[k] = known_hits.get(k, 0) + v
         abstained += s["abstained"]
@@ -477,6 +487,7 @@ def run_property(prop_id: str, tier: str, workers: Optional[int], examples: Opti
             "corpus_replayed": corpus_n,
             "deterministic_extra_cases": extra_n,
             "labels": dict(sorted(labels.items())),
+            "counters": dict(sorted(counters.items())),
             "abstained": abstained,
             "skipped_out_of_domain": skipped,
             "excluded_known": known_hits,
